@@ -17,7 +17,10 @@ LEVEL = "exploration"
 RULE = ("exhaustive enumeration of every suite id the library lists x every "
         "protocol version: defined pairs are negotiated between two pinned "
         "endpoints and checked on the wire (key-exchange messages, "
-        "certificate presence, Finished recomputed with the registered PRF, "
+        "certificate presence, master secret recomputed with the reference "
+        "PRF from the premaster secret observed at calc_key (DHE suites "
+        "also over a 1032-bit group: odd-length secrets), Finished "
+        "recomputed with the registered PRF, "
         "records re-opened by the reference receiver with registered cipher/"
         "key/MAC/tag parameters - in TLS 1.3 also after a KeyUpdate in both "
         "directions -, ciphertext overhead, accessor names); every single "
